@@ -490,6 +490,8 @@ def c07(run, selftest=True):
     focuses = ["hostile"] if run.tier == "quick" else ["hostile", "struct", "element", "clean"]
     for fo in focuses:
         receiver_stage(run, fo, {"panic"}, False, "C07 totality")
+    # unions, empty enums and every other body against every supports(..) declaration: only panics count here
+    shapes_stage(run, False, only_panics=True)
     run.assumptions = RECV_ASSUME + ["a panic inside the code under test is caught with catch_unwind and reported as a violation with the input as replay file"]
     return run.finish("model_checking", RECV_RULE + " For C07 the inputs include bodies that are not meta syntax at every depth, bare / name-value attributes, "
                       "flags in every form, and receivers whose attrs member has nothing to receive; only panics count.")
@@ -519,3 +521,85 @@ def c17(run, selftest=True):
                       "declarative side (never a skipped or flatten member, parent names only for names the flatten member received directly) or none; the real parser's "
                       "suggestion is compared with that set, the suggested name is re-submitted and must not be rejected as unknown, and the whole run is repeated with the "
                       "suggestions feature disabled (no suggestion anywhere, same leaves).")
+
+
+# =====================================================================================================
+# C18 - shape validation
+# =====================================================================================================
+
+SHAPES_CFG = """SPECIFICATION Spec
+CONSTANTS
+  Families <- %s
+  MaxVariants = %d
+  EMIT = %s
+INVARIANTS C18_Table C18_NoCrash ApiAgrees EmitDone
+CHECK_DEADLOCK FALSE
+"""
+
+
+def gen_shapes(run):
+    import subprocess
+    nd = run.path("shape_family.ndjson")
+    rs = os.path.join(vlib.HARNESS, "gen", "shapes_gen.rs")
+    p = subprocess.run(["python3", os.path.join(vlib.VERIF, "tools", "gen_shapes.py"), "--seed", str(vlib.seed()), "--tier", run.tier,
+                        "--ndjson", nd, "--rs", rs], stdout=subprocess.PIPE, stderr=subprocess.PIPE, text=True)
+    if p.returncode != 0:
+        raise ToolError("gen_shapes failed: " + p.stderr[-2000:])
+    run.extra.update(json.loads(p.stdout.strip().splitlines()[-1]))
+    return nd
+
+
+def shapes_stage(run, selftest, only_panics=False):
+    q = run.tier == "quick"
+    nd = gen_shapes(run)
+    # the receivers live in the same generated binary as the corpus: make sure the corpus source exists
+    gen_corpus(run, "all")
+    run.build()
+    # 1. the whole declaration space, spec only: all 2^11 word sets (and all 2^5 of the FromVariant form) x all bodies
+    res = run.tlc("MC_Shapes", SHAPES_CFG % ("AllFamilies", 3 if q else 4, "FALSE"), "shapes_all", workers=8, env={"FAMILY": nd})
+    run.require_tlc_ok(res, "Shapes (all word sets x all bodies)")
+    # 2. the compiled family x all bodies, replayed on derived code; the stand-alone API exhaustively
+    res = run.tlc("MC_Shapes", SHAPES_CFG % ("CompiledFamilies", 3 if q else 4, "TRUE"), "shapes_family", workers=4, env={"FAMILY": nd})
+    run.require_tlc_ok(res, "Shapes (compiled family)")
+    r = run.vh("replay-shapes", res["out"], binary=VHC, timeout=3000)
+    if only_panics:
+        keep = [m for m in r.get("prop", []) if any("panicked" in w for w in m.get("why", []))]
+        r = dict(r, prop=keep, prop_mismatch=len(keep))
+    run.add_replay_result("shapes", r)
+    if selftest:
+        def flip(case):
+            if case["expect"]["n"] >= 2:
+                case["expect"]["n"] -= 1
+                return True
+            return False
+        tag = '<<"REPLAY", '
+        first = None
+        with open(res["out"], errors="replace") as f:
+            for line in f:
+                if line.startswith(tag):
+                    case = json.loads(json.loads(line.strip()[len(tag):-2]))
+                    if flip(case):
+                        first = case
+                        break
+        if first is None:
+            raise ToolError("selftest(shapes): no case with two non-conforming variants")
+        bad = run.path("shapes_selftest.out")
+        with open(bad, "w") as f:
+            f.write(tag + json.dumps(json.dumps(first)) + ">>\n")
+        r2 = run.vh("replay-shapes", bad, binary=VHC)
+        if r2.get("prop_mismatch", 0) == 0:
+            raise ToolError("selftest(shapes): a corrupted error count was not detected")
+        run.notes.append("selftest replay-corruption (error count of a rejected enum lowered): detected")
+    os.remove(res["out"])
+
+
+@plan("C18")
+def c18(run, selftest=True):
+    shapes_stage(run, selftest)
+    run.assumptions = ["input bodies are rendered with fixed field types; only their shape matters to the code under test"]
+    return run.finish(
+        "model_checking",
+        "spec-only: every subset of the eleven shape words (2048) and every subset of the five FromVariant words, against every body (four struct styles, "
+        "all enums of 0..3 (quick) / 0..4 (thorough) variants over the four styles, a union), operational validator vs the documented table, exhaustively. "
+        "Replayed on derived code: a compiled family of receivers (empty, each word, every pair, 40 random larger sets in quick / all 2048 in thorough; all 32 FromVariant forms) "
+        "x all bodies - verdict and number of error leaves; the stand-alone ShapeSet API exhaustively (16 sets x 4 shapes). A case is one (word set, body).")
